@@ -19,6 +19,21 @@ func fetchUsedUserTypes(ut jschema.Schema, userTypes *catalog.UserSchemas) ([]st
 	return f.usedUserTypes, nil
 }
 
+// usedUserTypeError an error which happened while the types used by the user
+// type name were fetched: the error belongs to the schema of that type.
+type usedUserTypeError struct {
+	err  error
+	name string
+}
+
+func (e *usedUserTypeError) Error() string {
+	return fmt.Sprintf("process type %q: %s", e.name, e.err)
+}
+
+func (e *usedUserTypeError) Unwrap() error {
+	return e.err
+}
+
 type usedUserTypeFetcher struct {
 	userTypes        *catalog.UserSchemas
 	alreadyProcessed map[string]struct{}
@@ -47,7 +62,7 @@ func (f *usedUserTypeFetcher) fetch(ut jschema.Schema) error {
 		f.alreadyProcessed[t] = struct{}{}
 		f.usedUserTypes = append(f.usedUserTypes, t)
 		if err := f.fetch(f.userTypes.GetValue(t)); err != nil {
-			return fmt.Errorf("process type %q: %w", t, err)
+			return &usedUserTypeError{name: t, err: err}
 		}
 	}
 	return nil
